@@ -84,7 +84,7 @@ def run_eval(text, names, n=None, parser=None):
             v = p.eval(text, names, max_ops_evaluated=n)
         return ('ok', v)
     except Exception as e:
-        return ('err', type(e), str(e))
+        return ('err', type(e), e)
 
 
 class Probe:
